@@ -52,6 +52,10 @@ type connRun struct {
 	GoLeft      int        `json:"goroutines_left"`
 	History     string     `json:"history"` // compact event log, for replays
 	Broken      bool       `json:"broken"`
+	// runs of the hang-up family (hangup.go)
+	Hangup bool        `json:"hangup,omitempty"`
+	Script *hangScript `json:"script,omitempty"`
+	Specs  []hangSpec  `json:"specs,omitempty"`
 }
 
 type connSize struct {
@@ -843,16 +847,19 @@ func childMain(mode string) {
 	var sz connSize
 	json.Unmarshal([]byte(os.Getenv("VERIF_C18_SIZE")), &sz)
 	runs := connRuns(seed, nRuns, sz)
+	if h, _ := strconv.Atoi(os.Getenv("VERIF_C18_HANGUPS")); h > 0 {
+		runs = append(runs, hangRuns(seed^0x68616e67, h)...)
+	}
 	json.NewEncoder(os.Stdout).Encode(runs)
 }
 
 // runChild runs the connection stress in a subprocess (so that a crash of the code under test - a fatal
 // "concurrent map writes", a deadlock - cannot take the check down) and collects its runs.
-func runChild(bin string, seed uint64, nRuns int, sz connSize) ([]connRun, string, error) {
+func runChild(bin string, seed uint64, nRuns, nHang int, sz connSize) ([]connRun, string, error) {
 	szj, _ := json.Marshal(sz)
 	cmd := exec.Command("timeout", "1500", bin)
 	cmd.Env = append(os.Environ(), "VERIF_C18_CHILD=conn", "VERIF_C18_SEED="+strconv.FormatUint(seed, 10),
-		"VERIF_C18_RUNS="+strconv.Itoa(nRuns), "VERIF_C18_SIZE="+string(szj), "GORACE=halt_on_error=0 exitcode=66")
+		"VERIF_C18_RUNS="+strconv.Itoa(nRuns), "VERIF_C18_HANGUPS="+strconv.Itoa(nHang), "VERIF_C18_SIZE="+string(szj), "GORACE=halt_on_error=0 exitcode=66")
 	var stdout, stderr bytes.Buffer
 	cmd.Stdout, cmd.Stderr = &stdout, &stderr
 	rerr := cmd.Run()
@@ -893,7 +900,7 @@ func connCheck(c *core.Ctx) {
 			"the connection stress did not complete: "+err.Error()+" (a fatal runtime error or a deadlock in the connection code under concurrent callers)")
 	}
 	self, _ := os.Executable()
-	runs, stderr, err := runChild(self, c.Rng.U64(), c.N(60, 150), sz)
+	runs, stderr, err := runChild(self, c.Rng.U64(), c.N(60, 150), c.N(250, 1500), sz)
 	if err != nil {
 		crashed("plain build", stderr, err)
 	}
@@ -910,7 +917,7 @@ func connCheck(c *core.Ctx) {
 			defer os.RemoveAll(tmp)
 			var bin string
 			if bin, rerr = raceBinary(tmp); rerr == nil {
-				rr, rstderr, rerr = runChild(bin, c.Rng.U64(), 75, big)
+				rr, rstderr, rerr = runChild(bin, c.Rng.U64(), 75, 500, big)
 			}
 		}
 		switch {
@@ -936,17 +943,54 @@ func connCheck(c *core.Ctx) {
 		reqs = append(reqs, drv.Req{Fn: "conn", Args: [][]byte{[]byte(run.Prog), run.Trace}})
 		reqs = append(reqs, drv.Req{Fn: "read", Args: [][]byte{run.Wire}})
 	}
+	specAt := map[[2]int]int{} // (run, call) -> index of the question put to the extracted call_ok
+	for i, run := range runs {
+		for k, sp := range run.Specs {
+			specAt[[2]int{i, k}] = len(reqs)
+			reqs = append(reqs, drv.Req{Fn: "callspec", Args: sp.args()})
+		}
+	}
 	tModel := time.Now()
 	res := c.Model(reqs)
 	c.Extra["conn_model_seconds"] = time.Since(tModel).Seconds()
-	accept, direct, wireOK, leftovers := true, true, true, true
-	totalCalls := 0
+	accept, direct, wireOK, leftovers, specOK := true, true, true, true, true
+	totalCalls, hangRunsN, hangCalls := 0, 0, 0
+	const specFamily = "conn: a call returns the response carrying its id, its own cancellation or - only if no response for it was read before the stream ended - the end of the connection"
 	for i, run := range runs {
 		totalCalls += run.Calls
+		if run.Hangup {
+			hangRunsN++
+		}
 		for k, v := range run.Outcomes {
 			c.Dist["conn: "+k] += v
 		}
 		replay := map[string]any{"seed": run.Seed, "history": trunc(run.History, 3000)}
+		if run.Hangup {
+			replay["script"] = run.Script
+		}
+		// the extracted specification of a call's outcome, on what the connection returned
+		for k, sp := range run.Specs {
+			hangCalls++
+			a := res[specAt[[2]int{i, k}]]
+			if len(a) == 1 && string(a[0]) == "1" {
+				continue
+			}
+			specOK = false
+			if c.NFails(specFamily) < 3 {
+				detail := fmt.Sprintf("call %d (id %d) returned %s", sp.Call, sp.ID, sp.Outcome)
+				switch sp.Outcome {
+				case "got":
+					detail += fmt.Sprintf(" (the result of a response for id %d with value %d)", sp.For, sp.V)
+				case "closed", "other":
+					detail += fmt.Sprintf(" (%s)", sp.Err)
+				}
+				detail += fmt.Sprintf("; responses the read loop had taken off the stream before that: %v; context cancelled: %v; stream ended: %v; a connection Write failed: %v - call_ok (coq/spec/RpcCall.v) is false", sp.Reads, sp.Cancelled, sp.Ended, sp.WFailed)
+				if len(a) != 1 {
+					detail = "no answer from the extracted specification"
+				}
+				c.Fail("property", specFamily, "", map[string]any{"run": replay, "call": sp}, detail)
+			}
+		}
 		for _, f := range run.Fails {
 			direct = false
 			if c.NFails(f.Family) < 3 {
@@ -973,7 +1017,7 @@ func connCheck(c *core.Ctx) {
 			why = "no answer from the model"
 		} else if string(ra[0]) != "ok" {
 			why = "the model cannot follow the observed history: " + string(ra[0]) + " (a step that the connection took is not enabled in the model)"
-		} else if string(ra[1]) != "0" || string(ra[2]) != "free" || string(ra[3]) != "idle" {
+		} else if loop := map[bool]string{false: "idle", true: "ended"}[run.Hangup]; string(ra[1]) != "0" || string(ra[2]) != "free" || string(ra[3]) != loop {
 			why = fmt.Sprintf("model end state: pending=%s lock=%s loop=%s", ra[1], ra[2], ra[3])
 		} else if len(ra)-5 != len(run.Expect) {
 			why = "thread count"
@@ -1015,6 +1059,9 @@ func connCheck(c *core.Ctx) {
 		}
 	}
 	c.Extra["conn_calls"] = totalCalls
+	c.Extra["hangup_runs"] = hangRunsN
+	c.Extra["hangup_calls_judged_by_call_ok"] = hangCalls
+	c.Oblige("correspondence", "conn: every call of the hang-up histories (the peer answers and ends the stream before / back to back with / inside / after a response) meets the extracted specification call_ok", specOK && hangCalls > 0, fmt.Sprintf("%d calls in %d runs", hangCalls, hangRunsN))
 	c.Oblige("correspondence", "conn: every observed history (ids, frames read by the peer, responses, cancellations, returns) is accepted by the extracted transition system and ends in the observed results", accept, "")
 	c.Oblige("correspondence", "conn: every call returned the response with its own id or its own cancellation; replies carry the caller's id; notifications arrive once, in order", direct, "")
 	c.Oblige("correspondence", "conn: the bytes written by concurrent senders are split by the verified reader into exactly the messages sent (no interleaving)", wireOK, "")
